@@ -171,6 +171,7 @@ def option_defs(c, l, depth=0):
 def rule_lane_forms(ctx, prog, rule="R15"):
     """map_axis_skipnan_mut = map_axis_mut(axis, mapping ∘ remove_nan_mut);
     quantile_axis_skipnan_mut: per lane strip, empty ⇒ from_not_nan_opt(None), else plain quantile with the caller's q/strategy"""
+    prog = prog.inlined_view()      # private helpers that do not exist on the reference tree are read in place
     m = prog.method("MaybeNanExt", "map_axis_skipnan_mut")
     ok = False
     detail = "no map_axis_mut(self, axis, closure) found"
